@@ -129,7 +129,9 @@ impl Add for I64 {
             (Num(lhs), Num(rhs)) => match lhs.checked_add(rhs) {
                 Some(n) => Num(n),
                 None => {
-                    if lhs > 0 && rhs > 0 || lhs < 0 && rhs < 0 {
+                    // Overflow is only possible if both operands have the same
+                    // sign, which is also the sign of the exact result.
+                    if lhs > 0 {
                         PlusInf
                     } else {
                         MinusInf
@@ -153,7 +155,9 @@ impl Sub for I64 {
             (Num(lhs), Num(rhs)) => match lhs.checked_sub(rhs) {
                 Some(n) => Num(n),
                 None => {
-                    if lhs > 0 && rhs < 0 || lhs < 0 && rhs > 0 {
+                    // Overflow is only possible if `lhs >= 0 > rhs` (exact
+                    // result positive) or `lhs < 0 < rhs` (negative).
+                    if rhs < 0 {
                         PlusInf
                     } else {
                         MinusInf
